@@ -33,6 +33,7 @@ ASSUMPTIONS = [
     "trace scaling degenerate (centred trace ~ 0) cases are skipped",
 ]
 RULE = RULE + " " + forms.RULE_SUFFIX
+RULE = RULE + " " + 'Half of the weighted fits: the caller overwrites its weight array after fit.'
 
 
 def gen(rng, tier, index):
